@@ -124,7 +124,17 @@ Judge(t) ==
         \* C09 on two hubs: no device is ever set up at a hub whose application stored another SHIP id for the peer
         b13 == {<<"C09", "device-set-up-although-the-stored-ship-id-differs", h>> :
                   h \in {h \in {"A", "B"} : t.script.ids[h] = "wrong" /\ t.hubs[h].setups > 0}}
-    IN  b6 \cup b8 \cup b13 \cup HubTrust(t) \cup (IF t.settled THEN b1 \cup b2 \cup b3 \cup b4 \cup b5 \cup b7 \cup b9 \cup b10 \cup b11 \cup b12 ELSE {})
+        \* "after a SKI is unregistered its connection is closed": at rest no connection a hub dialled is still open while its user
+        \* has (no longer) a word for the peer - also not one whose dial was under way when the user took his word back
+        b14 == {<<"C10", "dialled-connection-open-although-the-user-has-no-word-for-the-peer", h>> :
+                  h \in {h \in {"A", "B"} : ~word(h) /\ ~t.shutDown[h]
+                                            /\ \E n \in 1..Len(t.conns) : t.conns[n].h = h /\ t.conns[n].role = "client" /\ t.conns[n].wsOpen}}
+        \* a dial that was under way when the user took his word back does not become a connection: no connection handler is
+        \* created for a dialled transport after Unregister / CancelPairing returned (and no Register was called since)
+        b15 == {<<"C10", "dial-became-a-connection-after-the-user-took-his-word-back", t.events[j].h>> :
+                  j \in {j \in Idx(t) : t.events[j].ev = "c.new" /\ t.events[j].v = "client"
+                                        /\ ~RegisteredBefore(t, t.events[j].h, j) /\ ~AutoBefore(t, t.events[j].h, j)}}
+    IN  b6 \cup b8 \cup b13 \cup b15 \cup HubTrust(t) \cup (IF t.settled THEN b1 \cup b2 \cup b3 \cup b4 \cup b5 \cup b7 \cup b9 \cup b10 \cup b11 \cup b12 \cup b14 ELSE {})
 Init == l = 0
 Next == /\ l < Len(Trace)
         /\ l' = l + 1
